@@ -467,3 +467,974 @@ def parse_ok(text: str):
         return XForm(text), None
     except ET.ParseError as e:
         return None, e
+
+
+# --- helpers added for C07/C08/C09 (append-only block; shared by the three translation/choices oracles)
+
+_MD_PIPE = re.compile(r"(?<!\\)\|")
+
+
+def md_to_wb(md: str):
+    """Independent reader of the Markdown test-form convention ('| sheet |' / '| | h1 | h2 |' / '| | c1 | c2 |').
+    Returns a WB, or None when the text is irregular (duplicate/blank headers with data, ragged rows,
+    inline '#' comments) so that oracles can skip forms whose source they cannot read with certainty."""
+    sheets: dict[str, list[list]] = {}
+    cur = None
+    for line in md.split("\n"):
+        s = line.strip()
+        if not s or s.startswith("#"):
+            continue
+        if "#" in s:
+            return None
+        if not s.startswith("|"):
+            continue
+        if not (s.endswith("|") and len(s) >= 2):
+            return None
+        inner = s[1:-1]
+        if re.fullmatch(r"[|\-\s:]*", inner) and "-" in inner:
+            continue
+        parts = _MD_PIPE.split(inner)
+        cells = [(p.strip().replace(r"\|", "|") or None) if p and not p.isspace() else None for p in parts]
+        first, rest = cells[0], cells[1:]
+        if first is not None:
+            cur = first
+            if cur in sheets:
+                return None
+            sheets[cur] = []
+        if cur is not None and any(c is not None for c in rest):
+            sheets[cur].append(rest)
+    wb = WB()
+    for name, arr in sheets.items():
+        if not arr:
+            wb[name] = ([], [])
+            continue
+        headers = list(arr[0])
+        while headers and headers[-1] is None:
+            headers.pop()
+        named = [h for h in headers if h is not None]
+        if len(set(named)) != len(named):
+            return None
+        rows = []
+        for r in arr[1:]:
+            r = list(r)
+            if any(c is not None for c in r[len(headers):]):
+                return None
+            r = r[:len(headers)] + [None] * (len(headers) - len(r))
+            if any(c is not None and h is None for h, c in zip(headers, r)):
+                return None
+            rows.append(r)
+        wb[name] = (headers, rows)
+    low = [k.lower() for k in wb]
+    if len(set(low)) != len(low):
+        return None
+    if "survey" not in low:
+        return None
+    return wb
+
+
+def case_wb(case: Case):
+    """The abstract workbook of a case (parsed from Markdown when needed); None if unreadable."""
+    if case.wb is not None:
+        return case.wb
+    cached = getattr(case, "_wb_cache", False)
+    if cached is not False:
+        return cached
+    wb = md_to_wb(case.md) if case.md is not None else None
+    try:
+        case._wb_cache = wb
+    except Exception:  # noqa: BLE001
+        pass
+    return wb
+
+
+def wb_sheet(wb: WB, name: str):
+    """(headers, rows) of the sheet called `name` (case-insensitive), or ([], [])."""
+    for k, v in wb.items():
+        if k.lower() == name:
+            return v
+    return ([], [])
+
+
+def sheet_dicts(wb: WB, name: str) -> list[dict]:
+    """Rows of a sheet as {header: non-empty cell text}, sheet order."""
+    headers, rows = wb_sheet(wb, name)
+    out = []
+    for r in rows:
+        d = {}
+        for h, c in zip(headers, r):
+            if h is not None and c not in (None, ""):
+                d[h] = str(c)
+        out.append(d)
+    return out
+
+
+def sheet_from_dicts(rows: list[dict], headers: list | None = None):
+    """(headers, rows) from row dicts; header order = given order, then first-seen order."""
+    hs = list(headers or [])
+    for r in rows:
+        for k in r:
+            if k not in hs:
+                hs.append(k)
+    return (hs, [[r.get(h) for h in hs] for r in rows])
+
+
+def source_default_language(case: Case, wb: WB) -> str:
+    """The form's default language as the XLSForm conventions define it: settings.default_language, else the
+    default_language argument of convert(), else the implicit language called 'default'."""
+    for row in sheet_dicts(wb, "settings")[:1]:
+        v = row.get("default_language")
+        if v:
+            return v
+    v = case.kwargs.get("default_language")
+    return str(v) if v else "default"
+
+
+def flatten_value(e) -> str:
+    """Text of an itext <value>/<label>/<hint> with <output value=.../> children replaced by a NUL token."""
+    out = [e.text or ""]
+    for c in e:
+        out.append("\x00")
+        out.append(c.tail or "")
+    return "".join(out)
+
+
+class IText:
+    """The itext block: .langs (document order, duplicates kept), .marked_default (langs carrying a default
+    attribute), .texts[lang][id][form or None] = [flattened values], .dup_ids[lang] = ids repeated in a language."""
+
+    def __init__(self, xf: XForm):
+        self.langs, self.marked_default, self.texts, self.dup_ids = [], [], {}, {}
+        it = xf.model.find(f"{XF}itext") if xf.model is not None else None
+        self.present = it is not None
+        self.n_blocks = len(xf.model.findall(f"{XF}itext")) if xf.model is not None else 0
+        if it is None:
+            return
+        for tr in it.findall(f"{XF}translation"):
+            lang = tr.get("lang")
+            self.langs.append(lang)
+            if tr.get("default") is not None:
+                self.marked_default.append(lang)
+            d = self.texts.setdefault(lang, {})
+            seen = set()
+            for t in tr.findall(f"{XF}text"):
+                tid = t.get("id")
+                if tid in seen:
+                    self.dup_ids.setdefault(lang, []).append(tid)
+                seen.add(tid)
+                forms = d.setdefault(tid, {})
+                for v in t.findall(f"{XF}value"):
+                    forms.setdefault(v.get("form"), []).append(flatten_value(v))
+
+    def shown(self, lang, tid, form=None):
+        """The single value a user of `lang` gets for (id, form); None when absent."""
+        vs = self.texts.get(lang, {}).get(tid, {}).get(form)
+        return vs[0] if vs else None
+
+
+_ITEXT_LITERAL = re.compile(r"jr:itext\(\s*'([^']*)'\s*\)|jr:itext\(\s*\"([^\"]*)\"\s*\)")
+
+
+def literal_itext_ids(value: str) -> list[str]:
+    """ids of the literal jr:itext('id') calls inside an attribute value (dynamic jr:itext(itextId) ignored)."""
+    if not value or "jr:itext(" not in value:
+        return []
+    v = value.strip()
+    if v.startswith("jr:itext('") and v.endswith("')") and v.count("jr:itext(") == 1:
+        return [v[len("jr:itext('"):-2]]
+    return [a or b for a, b in _ITEXT_LITERAL.findall(value)]
+
+
+def secondary_instances(xf: XForm) -> list:
+    """[(id, src, element)] for every model instance except the primary one."""
+    return [(i.get("id"), i.get("src"), i) for i in xf.instances[1:]]
+
+
+def split_lang_header(header: str, double_colon: bool):
+    """('base', 'lang' | None) following the XLSForm column convention name::language (or name:language in
+    sheets that use no '::' at all). Tokens are stripped; deeper nesting returns base with the extra tokens
+    joined so callers can treat it as not modelled."""
+    if header is None:
+        return (None, None)
+    if double_colon or "::" in header:
+        toks = [t.strip() for t in header.split("::")]
+    else:
+        toks = [t.strip() for t in header.split(":")]
+    if len(toks) == 1:
+        return (toks[0], None)
+    if len(toks) == 2:
+        return (toks[0], toks[1])
+    return ("::".join(toks[:-1]), toks[-1])
+
+
+# ----------------------------------------------------------------------------- helpers added for C17 / C19 / C20
+# --- helpers added for C17, C19, C20 (append-only; all names prefixed x17_ so that no other helper is shadowed)
+
+
+def x17_md_to_wb(md: str):
+    """Independent reading of the simple Markdown table dialect used by the tests: `| sheet |` lines open a
+    sheet, `| | c1 | c2 |` lines are rows (first one = headers), rows without any value are dropped.
+    Returns None when the text uses features outside that simple subset (comments, separators)."""
+    if md is None or "#" in md:
+        return None
+    wb = WB()
+    cur = None
+    started = {}
+    for line in md.split("\n"):
+        s = line.strip()
+        if not s:
+            continue
+        if not (s.startswith("|") and s.endswith("|") and len(s) >= 2):
+            return None
+        inner = s[1:-1]
+        if re.fullmatch(r"[\|\-\s:]+", inner) and "-" in inner:
+            return None
+        cells, buf, i = [], "", 0
+        while i < len(inner):
+            ch = inner[i]
+            if ch == "\\" and i + 1 < len(inner) and inner[i + 1] == "|":
+                buf += "|"
+                i += 2
+                continue
+            if ch == "|":
+                cells.append(buf)
+                buf = ""
+            else:
+                buf += ch
+            i += 1
+        cells.append(buf)
+        cells = [(c.strip() or None) for c in cells]
+        first, rest = cells[0], cells[1:]
+        if first is not None:
+            cur = first
+            if cur in wb:
+                return None
+            wb[cur] = ([], [])
+            started[cur] = False
+        if cur is None:
+            continue
+        if any(c is not None for c in rest):
+            if not started[cur]:
+                wb[cur] = (list(rest), [])
+                started[cur] = True
+            else:
+                h, rows = wb[cur]
+                rows.append(list(rest[: len(h)]) + [None] * (len(h) - len(rest)))
+    return wb
+
+
+def x17_case_wb(case):
+    """The abstract workbook of a case (its .wb, or an independent reading of its Markdown)."""
+    if case.wb is not None:
+        return case.wb
+    if case.md is not None:
+        try:
+            return x17_md_to_wb(case.md)
+        except Exception:  # noqa: BLE001
+            return None
+    return None
+
+
+_X17_BEGIN_RE = re.compile(r"^begin[ _](group|repeat|loop)\b")
+_X17_END_RE = re.compile(r"^end[ _](group|repeat|loop)\b")
+
+
+def x17_outline(wb: WB, sheet: str = "survey"):
+    """Independent structural reading of the survey sheet: one dict per row with
+    idx (0-based data row), row (spreadsheet row number = idx + 2), type, name, kind in
+    {"begin", "end", "question", "blank"}, control ("group"/"repeat"/"loop" or None),
+    ancestors [(name, control)] (outermost first, not including the row itself) and path.
+    Returns (items, balanced)."""
+    headers, rows = wb.sheet(sheet)
+    hl = [str(h).strip().lower() if h is not None else None for h in headers]
+
+    def cell(r, *names):
+        for n in names:
+            if n in hl:
+                i = hl.index(n)
+                if i < len(r) and r[i] not in (None, ""):
+                    return str(r[i])
+        return None
+
+    out, stack, balanced = [], [], True
+    for idx, r in enumerate(rows):
+        t = cell(r, "type", "command")
+        n = cell(r, "name", "tag", "value")
+        ts = " ".join(t.split()) if t else None
+        item = {"idx": idx, "row": idx + 2, "type": ts, "name": n, "control": None,
+                "ancestors": list(stack), "kind": "blank"}
+        if ts:
+            mb, me = _X17_BEGIN_RE.match(ts), _X17_END_RE.match(ts)
+            if mb:
+                item["kind"], item["control"] = "begin", mb.group(1)
+                stack.append((n, mb.group(1)))
+            elif me:
+                item["kind"], item["control"] = "end", me.group(1)
+                if stack and stack[-1][1] == me.group(1):
+                    stack.pop()
+                    item["ancestors"] = list(stack)
+                else:
+                    balanced = False
+            else:
+                item["kind"] = "question"
+        item["path"] = "/".join([a for a, _ in item["ancestors"] if a] + ([n] if n else []))
+        out.append(item)
+    if stack:
+        balanced = False
+    return out, balanced
+
+
+def x17_ns_decls(text: str):
+    """[(prefix, uri)] namespace declarations of an XML text in document order (expat based)."""
+    out = []
+    for ev, x in ET.iterparse(io.BytesIO(text.encode("utf-8")), events=("start-ns",)):
+        out.append(x)
+    return out
+
+
+def x17_edit_distance(a: str, b: str) -> int:
+    """Reference Levenshtein distance (full matrix, insert/delete/substitute at cost 1)."""
+    la, lb = len(a), len(b)
+    d = [[0] * (lb + 1) for _ in range(la + 1)]
+    for i in range(la + 1):
+        d[i][0] = i
+    for j in range(lb + 1):
+        d[0][j] = j
+    for i in range(1, la + 1):
+        for j in range(1, lb + 1):
+            d[i][j] = min(d[i - 1][j] + 1, d[i][j - 1] + 1, d[i - 1][j - 1] + (0 if a[i - 1] == b[j - 1] else 1))
+    return d[la][lb]
+
+
+def x17_site(exc) -> str:
+    """'<file>:<function>' of the innermost pyxform frame of an exception traceback."""
+    import traceback
+
+    tb = traceback.extract_tb(exc.__traceback__)
+    return next((f"{f.filename.split('/pyxform/')[-1]}:{f.name}" for f in reversed(tb) if "/pyxform/" in f.filename), "?")
+
+
+# ============================================================================================
+# --- helpers added for C04 / C05 / C11
+# Independent reading of the *source* workbook for the row/column oriented oracles: a small
+# Markdown table reader (for harvested forms), the XLSForm column-name conventions (aliases,
+# group::sub columns), the XLSForm question type table and a begin/end stack machine over the
+# survey rows.  Nothing here calls pyxform.  `SvUnsupported` means "outside the modelled domain":
+# the oracles skip such forms instead of guessing.
+# ============================================================================================
+
+
+class SvUnsupported(Exception):
+    pass
+
+
+sv_MD_COMMENT = re.compile(r"^\s*#")
+sv_MD_COMMENT_INLINE = re.compile(r"^(.*)(#[^|]+)$")
+sv_MD_ROW = re.compile(r"\s*\|(.*)\|\s*")
+sv_MD_SEP = re.compile(r"^[\|-]+$")
+sv_MD_SPLIT = re.compile(r"(?<!\\)\|")
+SV_SHEET_NAMES = ("survey", "choices", "settings", "external_choices", "entities", "osm")
+
+
+def sv_md_to_wb(md: str) -> "WB | None":
+    """Markdown XLSForm text -> WB (first row of each sheet = headers); None if not representable."""
+    sheets: dict = {}
+    cur = None
+    for line in md.split("\n"):
+        if sv_MD_COMMENT.match(line):
+            continue
+        m = sv_MD_COMMENT_INLINE.match(line)
+        if m:
+            line = m.group(1)
+        m = sv_MD_ROW.match(line)
+        if not m:
+            continue
+        inner = m.group(1)
+        if sv_MD_SEP.match(inner):
+            continue
+        cells = [None if (not c or c.isspace()) else c.strip().replace(r"\|", "|") for c in sv_MD_SPLIT.split(inner)]
+        first, rest = cells[0], cells[1:]
+        if first is not None:
+            if first in sheets:
+                return None
+            cur = first
+            sheets[cur] = []
+        if cur is not None and any(c is not None for c in rest):
+            sheets[cur].append(rest)
+    wb = WB()
+    for name, arr in sheets.items():
+        if not arr:
+            wb[name] = ([], [])
+            continue
+        headers, rows = arr[0], arr[1:]
+        if any(len(r) > len(headers) and any(c is not None for c in r[len(headers):]) for r in rows):
+            return None
+        if len(set(h for h in headers if h is not None)) != len([h for h in headers if h is not None]):
+            return None
+        wb[name] = (list(headers), [list(r) for r in rows])
+    return wb
+
+
+def sv_case_wb(case) -> "WB | None":
+    """The source workbook of a case (abstract workbook, or the Markdown text parsed); None if unknown."""
+    if case.wb is not None:
+        return case.wb
+    if case.md is not None:
+        try:
+            return sv_md_to_wb(case.md)
+        except Exception:  # noqa: BLE001
+            return None
+    return None
+
+
+def sv_find_sheet(wb: WB, name: str):
+    """(headers, rows) of the sheet called `name` (sheet names are case-insensitive) or None."""
+    hits = [k for k in wb if str(k).lower() == name]
+    if len(hits) != 1:
+        return None
+    return wb[hits[0]]
+
+
+def sv_sheet_records(wb: WB, name: str) -> "list[dict]":
+    """Rows of a sheet as {header: cell text} with empty cells left out (header order kept)."""
+    sh = sv_find_sheet(wb, name)
+    if sh is None:
+        return []
+    headers, rows = sh
+    out = []
+    for row in rows:
+        d = {}
+        for h, c in zip(headers, row):
+            if h is None or c is None or c == "":
+                continue
+            d[h] = str(c)
+        out.append(d)
+    return out
+
+
+sv_SMART = {"‘": "'", "’": "'", "“": '"', "”": '"'}
+
+
+def sv_clean_cell(text: str) -> str:
+    """XLSForm cell text as the converter sees it: outer whitespace removed, runs of whitespace
+    collapsed, typographic quotes replaced by plain ones."""
+    t = re.sub(r"\s+", " ", str(text).strip())
+    for a, b in sv_SMART.items():
+        t = t.replace(a, b)
+    return t
+
+
+# XLSForm survey column conventions: alias -> canonical (group, key) path.
+SV_SURVEY_COLUMN_ALIASES = {
+    "type": ("type",), "command": ("type",),
+    "name": ("name",), "tag": ("name",), "value": ("name",),
+    "label": ("label",), "caption": ("label",),
+    "hint": ("hint",), "guidance_hint": ("guidance_hint",),
+    "default": ("default",), "parameters": ("parameters",), "choice_filter": ("choice_filter",),
+    "trigger": ("trigger",), "disabled": ("disabled",), "intent": ("intent",),
+    "relevant": ("bind", "relevant"), "relevance": ("bind", "relevant"),
+    "required": ("bind", "required"),
+    "readonly": ("bind", "readonly"), "read_only": ("bind", "readonly"),
+    "constraint": ("bind", "constraint"),
+    "constraint_message": ("bind", "jr:constraintMsg"), "constraining_message": ("bind", "jr:constraintMsg"),
+    "required_message": ("bind", "jr:requiredMsg"), "requiredmsg": ("bind", "jr:requiredMsg"),
+    "noapperrorstring": ("bind", "jr:noAppErrorString"), "no_app_error_string": ("bind", "jr:noAppErrorString"),
+    "calculation": ("bind", "calculate"), "calculate": ("bind", "calculate"),
+    "save_to": ("bind", "entities:saveto"),
+    "appearance": ("control", "appearance"),
+    "repeat_count": ("control", "jr:count"), "count": ("control", "jr:count"), "jr:count": ("control", "jr:count"),
+    "rows": ("control", "rows"), "autoplay": ("control", "autoplay"),
+    "image": ("media", "image"), "big-image": ("media", "big-image"), "audio": ("media", "audio"),
+    "video": ("media", "video"),
+    "bind": ("bind",), "body": ("control",), "control": ("control",), "media": ("media",),
+    "instance": ("instance",),
+}
+
+
+def sv_survey_header_tokens(headers) -> dict:
+    """{header: canonical token tuple or None (column not part of the modelled conventions)}.
+    Only the `group::key` spelling of grouped columns is modelled (the single-colon legacy spelling
+    is reported as None)."""
+    out = {}
+    for h in headers:
+        if h is None:
+            continue
+        parts = [p.strip() for p in str(h).split("::")]
+        first = "_".join(parts[0].split()).lower()
+        canon = SV_SURVEY_COLUMN_ALIASES.get(first)
+        if canon is None or (":" in parts[0] and first != "jr:count"):
+            out[h] = None
+            continue
+        out[h] = (*canon, *parts[1:])
+    return out
+
+
+def sv_survey_rows(wb: WB) -> "list[dict]":
+    """Survey rows as {token tuple: cleaned cell text}. Raises SvUnsupported for header rows outside
+    the modelled conventions that could hide a structural/logic column."""
+    sh = sv_find_sheet(wb, "survey")
+    if sh is None:
+        raise SvUnsupported("no survey sheet")
+    headers, _ = sh
+    toks = sv_survey_header_tokens(headers)
+    seen = {}
+    for h, t in toks.items():
+        if t is None:
+            if ":" in str(h).replace("::", ""):
+                raise SvUnsupported(f"single-colon header {h!r}")
+            continue
+        if t in seen:
+            raise SvUnsupported(f"two columns for {t}")
+        seen[t] = h
+    out = []
+    for rec in sv_sheet_records(wb, "survey"):
+        row = {}
+        for h, c in rec.items():
+            t = toks.get(h)
+            if t is None:
+                continue
+            c = sv_clean_cell(c)
+            if c != "":
+                row[t] = c
+        out.append(row)
+    return out
+
+
+def sv_row_get(row: dict, *tokens, default=None):
+    return row.get(tuple(tokens), default)
+
+
+def sv_row_has(row: dict, first: str) -> bool:
+    """Any cell in the column group `first` (e.g. label, label::English, media::image)."""
+    return any(k[0] == first for k in row)
+
+
+SV_YES = {"yes", "Yes", "SV_YES", "true", "True", "TRUE", "true()"}
+SV_NO = {"no", "No", "SV_NO", "false", "False", "FALSE", "false()"}
+
+# The XLSForm question type table (xlsform.org "Question types" and "Metadata"): body control element,
+# upload media type, bind data type and preload attributes.  control None = not user-visible.
+def sv_t(control, bind, mediatype=None, preload=None, params=None, readonly=None):
+    return {"control": control, "bind": bind, "mediatype": mediatype, "preload": preload, "params": params,
+            "readonly": readonly}
+
+
+SV_XLSFORM_TYPES = {
+    "text": sv_t("input", "string"), "string": sv_t("input", "string"),
+    "integer": sv_t("input", "int"), "int": sv_t("input", "int"),
+    "decimal": sv_t("input", "decimal"),
+    "range": sv_t("range", "int"),
+    "note": sv_t("input", "string", readonly="true()"),
+    "date": sv_t("input", "date"), "time": sv_t("input", "time"),
+    "dateTime": sv_t("input", "dateTime"), "datetime": sv_t("input", "dateTime"),
+    "geopoint": sv_t("input", "geopoint"), "geotrace": sv_t("input", "geotrace"), "geoshape": sv_t("input", "geoshape"),
+    "barcode": sv_t("input", "barcode"),
+    "image": sv_t("upload", "binary", "image/*"), "photo": sv_t("upload", "binary", "image/*"),
+    "audio": sv_t("upload", "binary", "audio/*"), "video": sv_t("upload", "binary", "video/*"),
+    "file": sv_t("upload", "binary", "application/*"),
+    "acknowledge": sv_t("trigger", "string"),
+    "calculate": sv_t(None, "string"), "hidden": sv_t(None, "string"),
+    "background-audio": sv_t(None, "binary"),
+    "start-geopoint": sv_t(None, "geopoint"), "background-geopoint": sv_t(None, "geopoint"),
+    "start": sv_t(None, "dateTime", preload="timestamp", params="start"),
+    "end": sv_t(None, "dateTime", preload="timestamp", params="end"),
+    "today": sv_t(None, "date", preload="date", params="today"),
+    "deviceid": sv_t(None, "string", preload="property", params="deviceid"),
+    "phonenumber": sv_t(None, "string", preload="property", params="phonenumber"),
+    "username": sv_t(None, "string", preload="property", params="username"),
+    "email": sv_t(None, "string", preload="property", params="email"),
+    "simserial": sv_t(None, "string", preload="property", params="simserial"),
+    "subscriberid": sv_t(None, "string", preload="property", params="subscriberid"),
+    "audit": sv_t(None, "binary"),
+    # select family (the list name follows the keyword)
+    "select_one": sv_t("select1", "string"), "select_multiple": sv_t("select", "string"),
+    "select_one_from_file": sv_t("select1", "string"), "select_multiple_from_file": sv_t("select", "string"),
+    "select_one_external": sv_t("input", "string"),
+    "rank": sv_t("odk:rank", "odk:rank"),
+    # external data declarations: no node, no bind, no control
+    "xml-external": None, "csv-external": None,
+}
+SV_SELECT_KEYWORDS = {
+    "select_one": "select_one", "select one": "select_one", "select1": "select_one",
+    "select_multiple": "select_multiple", "select all that apply": "select_multiple",
+    "select_one_from_file": "select_one_from_file", "select_multiple_from_file": "select_multiple_from_file",
+    "select_one_external": "select_one_external", "rank": "rank",
+}
+sv_RE_SELECT_TYPE = re.compile(
+    r"^(?P<kw>" + "|".join(sorted(map(re.escape, SV_SELECT_KEYWORDS), key=len, reverse=True)) + r") (?P<list>\S+)"
+    r"( (?P<other>or specify other|or_other|or other))?$")
+sv_RE_CONTROL_TYPE = re.compile(r"^(?P<be>begin|end)[ _](?P<kind>group|repeat)$")
+sv_SETTINGS_AS_TYPE = {"form_title", "set_form_title", "form_id", "set_form_id", "prefix"}
+SV_RE_PLAIN_REF = re.compile(r"^\$\{[^\s{}$#]+\}$")
+SV_RE_XML_NAME = re.compile(r"^[A-Za-z_][A-Za-z0-9_.\-]*$")
+
+
+@dataclass
+class SvSRow:
+    """One survey sheet row as understood by the stack machine."""
+    idx: int                    # 0-based row index in the sheet
+    kind: str                   # 'question' | 'group' | 'repeat' | 'end' | 'audit' | 'external' | 'nothing'
+    name: str | None = None
+    parents: tuple = ()         # names of the enclosing groups/repeats, outermost first
+    parent_kinds: tuple = ()
+    type: str | None = None     # normalised base type (key of SV_XLSFORM_TYPES) or None if unknown
+    raw_type: str | None = None
+    list_name: str | None = None
+    or_other: bool = False
+    cells: dict = field(default_factory=dict)
+
+    @property
+    def path(self):
+        return (*self.parents, self.name)
+
+
+def sv_parse_parameters(text: "str | None") -> dict:
+    """`k=v` pairs separated by spaces, commas or semicolons (XLSForm parameters column)."""
+    if not text:
+        return {}
+    for sep in (";", ","):
+        if sep in text:
+            parts = text.split(sep)
+            break
+    else:
+        parts = text.split()
+    out = {}
+    for p in parts:
+        if "=" not in p:
+            raise SvUnsupported("malformed parameters")
+        k, v = p.split("=")[:2]
+        k = k.strip().lower()
+        out[k] = v.strip() if k in ("label", "value") else v.strip().lower()
+    return out
+
+
+def sv_survey_model(wb: WB) -> "list[SvSRow]":
+    """Walk the survey rows with a begin/end stack. Raises SvUnsupported for constructs outside the
+    modelled domain (loops, settings-in-survey rows, nameless rows, unbalanced sheets...)."""
+    out: list[SvSRow] = []
+    stack: list[tuple[str, str]] = []
+    for idx, cells in enumerate(sv_survey_rows(wb)):
+        dis = sv_row_get(cells, "disabled")
+        if dis is not None:
+            if dis in SV_YES:
+                out.append(SvSRow(idx, "nothing", cells=cells))
+                continue
+            if dis not in SV_NO:
+                raise SvUnsupported("odd disabled value")
+        live = {k: v for k, v in cells.items() if k != ("disabled",)}
+        if not live:
+            out.append(SvSRow(idx, "nothing", cells=cells))
+            continue
+        rtype = sv_row_get(cells, "type")
+        name = sv_row_get(cells, "name")
+        if rtype is None:
+            if name is None and not sv_row_has(cells, "label"):
+                out.append(SvSRow(idx, "nothing", cells=cells))   # comment row
+                continue
+            raise SvUnsupported("row without type")
+        parents = tuple(n for n, _ in stack)
+        pkinds = tuple(k for _, k in stack)
+        if rtype == "audit":
+            if name not in (None, "audit"):
+                raise SvUnsupported("named audit")
+            out.append(SvSRow(idx, "audit", "audit", ("meta",), ("group",), "audit", rtype, cells=cells))
+            continue
+        if rtype in sv_SETTINGS_AS_TYPE or rtype == "include" or "loop" in rtype.split() or "lgroup" in rtype \
+                or "looped" in rtype:
+            raise SvUnsupported(f"type {rtype}")
+        m = sv_RE_CONTROL_TYPE.match(rtype)
+        if m is None and re.match(r"^(begin|end)[ _]", rtype):
+            raise SvUnsupported(f"control type {rtype}")
+        if m and m.group("be") == "end":
+            if not stack or stack[-1][1] != m.group("kind"):
+                raise SvUnsupported("unbalanced end")
+            stack.pop()
+            out.append(SvSRow(idx, "end", None, parents, pkinds, raw_type=rtype, cells=cells))
+            continue
+        if name is None or not SV_RE_XML_NAME.match(name):
+            raise SvUnsupported("nameless or oddly named row")
+        if m:
+            kind = m.group("kind")
+            out.append(SvSRow(idx, kind, name, parents, pkinds, raw_type=rtype, cells=cells))
+            stack.append((name, kind))
+            continue
+        sm = sv_RE_SELECT_TYPE.match(rtype)
+        if sm:
+            out.append(SvSRow(idx, "question", name, parents, pkinds, SV_SELECT_KEYWORDS[sm.group("kw")], rtype,
+                            sm.group("list"), sm.group("other") is not None, cells))
+            continue
+        if rtype in ("xml-external", "csv-external"):
+            out.append(SvSRow(idx, "external", name, parents, pkinds, rtype, rtype, cells=cells))
+            continue
+        base = rtype if rtype in SV_XLSFORM_TYPES else None
+        if rtype.startswith("osm"):
+            base = None
+        out.append(SvSRow(idx, "question", name, parents, pkinds, base, rtype, cells=cells))
+    if stack:
+        raise SvUnsupported("unbalanced begin")
+    return out
+
+
+def sv_settings_record(wb: WB) -> dict:
+    """First data row of the settings sheet as {header: text} (empty if there is no settings sheet)."""
+    recs = sv_sheet_records(wb, "settings")
+    return dict(recs[0]) if recs else {}
+
+
+def sv_ref_regex(cell: str) -> "re.Pattern":
+    """Regex accepting exactly `cell` with every ${name} replaced by some XPath ending in /name
+    (absolute, relative or current()-anchored, optionally in the last-saved instance), modulo
+    whitespace around the substituted path."""
+    out, pos = [], 0
+    for m in re.finditer(r"\$\{(last-saved#)?([^}]*)\}", cell):
+        out.append(re.escape(cell[pos:m.start()]))
+        nm = re.escape(m.group(2).strip())
+        pre = r"instance\('__last-saved'\)" if m.group(1) else r"(?:current\(\)/)?"
+        out.append(r"\s*" + pre + r"(?:\.\.|/)[^\s,()\[\]='\"]*?(?<=/)" + nm + r"\s*")
+        pos = m.end()
+    out.append(re.escape(cell[pos:]))
+    return re.compile("^" + "".join(out) + "$", re.S)
+
+
+def sv_ns_declarations(xml_text: str) -> "list[tuple[str, str]]":
+    """All (prefix, uri) namespace declarations of a document, in document order (expat start-ns events)."""
+    return [ev[1] for ev in ET.iterparse(io.BytesIO(xml_text.encode("utf-8")), events=("start-ns",))]
+
+
+def sv_qname_prefixed(tag: str, extra: "dict | None" = None) -> str:
+    """'{uri}local' -> 'prefix:local' for the standard XForms prefixes (and `extra` {uri: prefix})."""
+    if not tag.startswith("{"):
+        return tag
+    uri, local = tag[1:].split("}", 1)
+    for p, u in NS.items():
+        if u == uri and p not in ("x", "h"):
+            return f"{'entities' if p == 'ent' else p}:{local}"
+    if extra and uri in extra:
+        return f"{extra[uri]}:{local}"
+    if uri == NS["x"]:
+        return local
+    return tag
+
+
+# --- helpers added for C06 (also used by C01 and C15): adversarial alphabet, a rich text-bearing form
+# template, namespace-declaration aware parsing.  Nothing above this line was changed.
+
+LANG1, LANG2 = "English (en)", "French (fr)"
+
+# Tokens of the adversarial alphabet.  Deliberately absent (outside the properties' domain):
+#  * characters that XML 1.0 cannot carry at all (C0 controls other than \t \n \r, U+FFFE/U+FFFF, lone
+#    surrogates) -- C01 probes those separately;
+#  * "smart" quotes, which XLSForm conversion documents as being replaced by straight quotes;
+#  * well-formed ${name} references and instance(...) expressions (those are syntax, not text).
+ADV_TOKENS = [
+    "<", ">", "&", '"', "'", "]]>", "<![CDATA[", "<![CDATA[x]]>", "&amp;", "&lt;", "&gt;", "&quot;", "&apos;",
+    "&#60;", "&#x3C;", "&#38;", "&nbsp;", "&unknown;", "&;", "&#;", "<!--", "-->", "<!-- c -->", "--", "<b>",
+    "</b>", "<b>bold</b>", "<b/>", "<br>", '<output value="/data/a"/>', "<output/>", "</label>", "</value><value>",
+    "</text>", "<?pi x?>", '<?xml version="1.0"?>', "<!DOCTYPE x>", '<a href="x">y</a>', "<x:y>", "xmlns:z=\"u\"",
+    "{", "}", "$", "$ {a}", "{a}", "$a", "\\", "\\n", "|", "#", "%", "`", "=", ";", "/", "/>", "?>", "<?",
+    "\U0001F600", "\U00010348", "\U000E0041", "‮", "‏", "مرحبا",
+    "שלום", "é", " ", "‍", " ", "\u0085", "�", "퟿", "",
+    "￯", "\t", "\n", "\r\n", "  ",
+]
+ADV_WORDS = ["a", "Z", "x y", "7", "naïve", "T"]
+
+# A small core every channel is exercised with even in the quick tier.
+ADV_CORE = [
+    "1 < 2", "a > b", "R & D", 'say "hi" \'there\'', "a ]]> b", "<b>bold</b> tail", "<!-- c -->after", "&amp; &lt; &#60;",
+    "\U0001F600 ‮שלום", '<output value="/data/a"/> z', "x <![CDATA[ y ]]> z", "</label></input>",
+]
+
+
+def adv_strings(seed: int, n: int) -> list[str]:
+    """Deterministic list: ADV_CORE, every token alone, every token embedded in letters, then random
+    concatenations of 2-5 tokens/words, n strings in total (at least the systematic part)."""
+    r = random.Random(seed * 7919 + 13)
+    out = list(ADV_CORE)
+    for t in ADV_TOKENS:
+        if t.strip():
+            out.append(t)
+    for t in ADV_TOKENS:
+        out.append(f"a{t}b")
+    while len(out) < n:
+        k = r.randint(2, 5)
+        parts = [r.choice(ADV_TOKENS) if r.random() < 0.75 else r.choice(ADV_WORDS) for _ in range(k)]
+        out.append(r.choice(["", " "]).join(parts))
+    seen, res = set(), []
+    for s in out:
+        if s not in seen and s.strip():
+            seen.add(s)
+            res.append(s)
+    return res
+
+
+def text_form(fill=None, multi=False, tail_ref=False, settings=None, clean=None) -> WB:
+    """A form with every text-bearing cell kind of the XLSForm conventions, in every structural context at
+    once (top level, group, repeat, repeat > group > repeat), selects with two lists, settings.
+
+    fill(cell_id, lang, refs) -> str | None gives the text of a cell (None: a benign default).  cell_id is
+    "<sheet>.<row name>.<column>", lang is None (untranslated column) or the language of the column, refs
+    the question names a ${...} reference in that cell may use.  multi: translatable columns are written
+    once per language (LANG1, LANG2).  tail_ref: the last question's label mixes text and a reference."""
+    fill = fill or (lambda cid, lang, refs: None)
+    langs = [LANG1, LANG2] if multi else [None]
+
+    def T(row, sheet, name, col, refs):
+        for L in langs:
+            v = fill(f"{sheet}.{name}.{col}", L, refs)
+            if v is None:
+                v = f"{col} of {name}" + (f" in {L[:2]}" if L else "")
+            row[col if L is None else f"{col}::{L}"] = v
+
+    def P(row, sheet, name, col, default):
+        v = fill(f"{sheet}.{name}.{col}", None, ())
+        row[col] = default if v is None else v
+
+    rows = []
+
+    def q(type_, name, refs, cols=("label",), plain=()):
+        row = {"type": type_, "name": name}
+        for c in cols:
+            T(row, "survey", name, c, refs)
+        if "constraint_message" in cols:
+            row["constraint"] = ". != 'zzz'"
+        if "required_message" in cols:
+            row["required"] = "yes"
+        for c, d in plain:
+            P(row, "survey", name, c, d)
+        rows.append(row)
+
+    q("text", "a", ())
+    q("integer", "b", ("a",))
+    q("text", "q", ("a", "b"), ("label", "hint", "guidance_hint", "constraint_message", "required_message"),
+      (("default", "dflt"), ("appearance", "w2"), ("bind::foo", "v1"), ("body::bar", "v2"), ("instance::baz", "v3")))
+    q("select_one l1", "s", ("a",), ("label", "hint"), (("appearance", "minimal"),))
+    q("select_multiple l.2", "m", ("a",), ("label",))
+    q("note", "n", ("a", "q"), ("label",))
+    rows[-1]["image"] = "pic.png"  # media sends this question's label through itext even without languages
+    q("begin group", "g", ("a",), ("label",), (("appearance", "field-list"),))
+    q("text", "gq", ("a", "q"), ("label", "hint", "constraint_message"), (("default", "gd"),))
+    q("decimal", "gq2", ("gq",), ("label", "required_message"), (("bind::foo", "v4"),))
+    rows.append({"type": "end group"})
+    q("begin repeat", "r", ("a",), ("label",))
+    q("text", "rb", ("a",), ("label",))
+    q("text", "rq", ("rb", "a"), ("label", "hint", "guidance_hint", "constraint_message"),
+      (("default", "rd"), ("instance::baz", "v5")))
+    q("begin group", "rg", ("rb",), ("label",))
+    q("begin repeat", "rr", ("rb",), ("label",))
+    q("select_one l1", "deep", ("rb", "a"), ("label", "hint"))
+    q("text", "deep2", ("deep",), ("label",), (("default", "dd"), ("body::bar", "v6")))
+    rows.append({"type": "end repeat"})
+    rows.append({"type": "end group"})
+    rows.append({"type": "end repeat"})
+    if tail_ref:
+        row = {"type": "note", "name": "tail"}
+        for L in langs:
+            row["label" if L is None else f"label::{L}"] = "End ${a} and ${b}"
+            row["hint" if L is None else f"hint::{L}"] = "Bye ${q}"
+        rows.append(row)
+
+    crows = []
+    for ln, names in (("l1", ("c1", "c2", "c3")), ("l.2", ("k1", "k2"))):
+        for nm in names:
+            row = {"list_name": ln, "name": nm}
+            T(row, "choices", f"{ln}/{nm}", "label", ("a",))
+            P(row, "choices", f"{ln}/{nm}", "extra", f"e-{nm}")
+            if ln == "l1":
+                P(row, "choices", f"{ln}/{nm}", "x.col", f"x-{nm}")
+            elif nm == "k1":
+                row["audio"] = "k1.mp3"  # choice media: list l.2 gets itext labels even without languages
+            crows.append(row)
+
+    srow = {"form_id": "tf"}
+    P(srow, "settings", "settings", "form_title", "Title")
+    P(srow, "settings", "settings", "version", "v1.0")
+    P(srow, "settings", "settings", "attribute::xyz", "v7")
+    if clean is not None:
+        srow["clean_text_values"] = clean
+    srow.update(settings or {})
+
+    def sheet(rs):
+        hs = []
+        for row in rs:
+            for k in row:
+                if k not in hs:
+                    hs.append(k)
+        return hs, [[row.get(h) for h in hs] for row in rs]
+
+    wb = WB()
+    wb["survey"] = sheet(rows)
+    wb["choices"] = sheet(crows)
+    wb["settings"] = sheet([srow])
+    return wb
+
+
+def parse_with_ns(text: str):
+    """(root element, [(prefix, uri), ...] namespace declarations in document order) via ElementTree/expat."""
+    decls, root = [], None
+    for ev, x in ET.iterparse(io.BytesIO(text.encode("utf-8")), events=("start", "start-ns")):
+        if ev == "start-ns":
+            decls.append(tuple(x))
+        elif root is None:
+            root = x
+    return root, decls
+# --- end of helpers added for C06
+
+
+_BEGIN = re.compile(r"^begin[\s_](group|repeat|lgroup|looped group|loop)( .*)?$")
+_END = re.compile(r"^end[\s_](group|repeat|lgroup|looped group|loop)$")
+
+
+def survey_elements(wb: WB, root: str):
+    """Walk the survey sheet following the XLSForm begin/end nesting convention.
+    Returns a list of {row: index, cells: {header: text}, type, name, path, kind ('question'|'group'|'repeat'),
+    in_repeat: bool}, or None when the sheet uses constructs this reader does not model (loops, unbalanced
+    begin/end, missing type/name columns)."""
+    headers, _ = wb_sheet(wb, "survey")
+    if "type" not in headers or "name" not in headers:
+        return None
+    out, stack = [], []
+    for i, cells in enumerate(sheet_dicts(wb, "survey")):
+        t = " ".join((cells.get("type") or "").split())
+        if not t:
+            if cells:
+                continue
+            continue
+        m = _BEGIN.match(t)
+        if m:
+            if m.group(1) == "loop" or m.group(2):
+                return None
+            kind = "group" if m.group(1) == "group" else "repeat"
+            name = cells.get("name")
+            if not name:
+                return None
+            path = "/" + "/".join([root, *[n for n, _ in stack], name])
+            out.append({"row": i, "cells": cells, "type": t, "name": name, "path": path, "kind": kind,
+                        "in_repeat": any(k == "repeat" for _, k in stack)})
+            stack.append((name, kind))
+            continue
+        m = _END.match(t)
+        if m:
+            if not stack:
+                return None
+            stack.pop()
+            continue
+        name = cells.get("name")
+        if not name:
+            continue
+        path = "/" + "/".join([root, *[n for n, _ in stack], name])
+        out.append({"row": i, "cells": cells, "type": t, "name": name, "path": path, "kind": "question",
+                    "in_repeat": any(k == "repeat" for _, k in stack)})
+    if stack:
+        return None
+    return out
+
+
+def body_controls(xf: XForm) -> dict:
+    """{ref: first body element (document order) carrying that ref} — for a repeat this is its wrapper group."""
+    out = {}
+    if xf.body is None:
+        return out
+    for e in xf.body.iter():
+        r = e.get("ref")
+        if r is not None and XForm.local(e.tag) not in ("label", "hint", "value", "setvalue", "setgeopoint", "output"):
+            out.setdefault(r, e)
+    return out
